@@ -10,7 +10,8 @@
      Step(s,e) = [why, st]: the rules event e has to satisfy in state s (why = names of the violated ones) and the
                successor.  One event = one linearisation point that the harness can observe without touching /repo:
        opstart/opend   the program enters / leaves an op (connect, begin, exec, nested, commit, rollback, close,
-                       `async with` entries, "exit" = normal exit of the innermost block)
+                       `async with` entries, "exit" = normal exit of the innermost block, "sleep" = an await that is
+                       not the database)
        call/ret        a driver coroutine was entered (= the task now SUSPENDS: one await point) / returned
        drv             the effect reached the database connection (open exec commit rollback close stop)
        pool            connect checkout reset checkin invalidate close detach close_detached (PoolEvents)
@@ -21,8 +22,8 @@
 
    The same Step function drives
      * the GENERATIVE model below (Next): every program of the grammar (ValidOps) up to MaxOps ops, a cancellation
-       (Cancel) at ANY await point - i.e. whenever a driver call is in flight, before or after its effect, or while the
-       outer task waits on a shielded close - then AwaitDone steps (the head of st.todo), ShieldedCloseStep (the same,
+       (Cancel) at ANY await point - i.e. whenever a driver call is in flight, before or after its effect, while the
+       outer task waits on a shielded close, or in a non-database await - then AwaitDone steps (the head of st.todo), ShieldedCloseStep (the same,
        while st.shield # <<>>), GcFairy (event gc + finalizer), and
      * TraceAsyncCancel.tla, which replays recorded runs of the real code through it.
 
